@@ -57,6 +57,15 @@ Open(s, i, acc, app, tr) ==
        IN IF tr THEN Res("ok", 0, << >>, None, FALSE, [s1 EXCEPT !.data = << >>], "open/trunc-" \o acc)
           ELSE Res("ok", 0, << >>, None, FALSE, s1, "open/" \o acc \o (IF app THEN "-app" ELSE ""))
 
+\* OpenFile with O_CREATE on the name after it was removed and every handle of the old file is closed or unused: a new,
+\* empty file takes the name and this is its creating handle (with the flags given, O_APPEND included). While the
+\* name exists O_CREATE changes nothing about Open, and a second file next to open handles of the first is FSTrace's
+\* business, so those cases are not calls of this model (Enabled).
+Create(s, i, acc, app) ==
+  Res("ok", 0, << >>, None, FALSE,
+      SetH([s EXCEPT !.data = << >>, !.link = "f"], i, [s |-> "open", acc |-> acc, app |-> app, off |-> 0]),
+      "create/" \o acc \o (IF app THEN "-app" ELSE ""))
+
 Read(s, i, n) ==
   LET h == H(s, i) IN
   IF Closed(s, i) THEN Fail("ECLOSED", s, IF n = 0 THEN "read/closed-zero" ELSE "read/closed")
@@ -150,6 +159,7 @@ Bufs == UNION { [1..n -> Bytes] : n \in WriteLens }
 HS   == 1..NH
 Calls ==
        { C("open", i, 0, 0, << >>, 0, acc, app, tr) : i \in HS, acc \in {"RO", "WO", "RW"}, app \in BOOLEAN, tr \in BOOLEAN }
+  \cup (IF NsOps THEN { C("create", i, 0, 0, << >>, 0, acc, app, FALSE) : i \in HS, acc \in {"RO", "WO", "RW"}, app \in BOOLEAN } ELSE {})
   \cup { C("read", i, n, 0, << >>, 0, "RO", FALSE, FALSE) : i \in HS, n \in ReadLens }
   \cup { C("readat", i, n, o, << >>, 0, "RO", FALSE, FALSE) : i \in HS, n \in ReadLens, o \in Offs }
   \cup { C("write", i, 0, 0, b, 0, "RO", FALSE, FALSE) : i \in HS, b \in Bufs }
@@ -162,12 +172,14 @@ Calls ==
 \* a call is part of the model when its handle slot is in the right life-cycle state
 Enabled(s, c) ==
   CASE c.op = "open" -> H(s, c.h).s = "unused" /\ s.link # "other"   \* (opening the other file is not part of this model)
+    [] c.op = "create" -> H(s, c.h).s = "unused" /\ s.link = "none" /\ \A j \in HS : H(s, j).s # "open"
     [] c.op \in {"remove", "rename"} -> s.link # "other"
     [] c.op = "replace" -> s.link = "f"   \* (renaming onto a free name is FSCore's business)
     [] OTHER -> H(s, c.h).s # "unused"
 
 Eval(s, c) ==
   CASE c.op = "open"     -> Open(s, c.h, c.acc, c.app, c.tr)
+    [] c.op = "create"   -> Create(s, c.h, c.acc, c.app)
     [] c.op = "read"     -> Read(s, c.h, c.n)
     [] c.op = "readat"   -> ReadAt(s, c.h, c.n, c.off)
     [] c.op = "write"    -> Write(s, c.h, c.bs)
@@ -185,7 +197,7 @@ Eval(s, c) ==
 InBounds(s) == /\ Len(s.data) <= MaxLen
                /\ \A i \in HS : s.hs[i].off <= MaxLen + 1
 \* symmetry reduction by hand: handle slots are opened in order
-Ordered(s, c) == c.op = "open" => \A j \in 1..(c.h - 1) : H(s, j).s # "unused"
+Ordered(s, c) == c.op \in {"open", "create"} => \A j \in 1..(c.h - 1) : H(s, j).s # "unused"
 
 CallSeq == SX!SetToSeq(Calls)
 Tr(s, c) ==
@@ -211,7 +223,7 @@ ModelProps ==
     \* a failing call changes nothing
     /\ (r.e \in {"FAIL", "ECLOSED", "EOF"} /\ r.n = 0 => r.st = st)
     \* a read-only handle never changes contents, a write-only handle never reads them
-    /\ (c.op \notin {"open", "remove", "rename", "replace"} /\ h.s = "open" /\ h.acc = "RO" => r.st.data = st.data)
+    /\ (c.op \notin {"open", "create", "remove", "rename", "replace"} /\ h.s = "open" /\ h.acc = "RO" => r.st.data = st.data)
     /\ (c.op \in {"read", "readat"} /\ h.acc = "WO" => r.n = 0 /\ r.e # "ok")
     \* EOF never before all bytes were delivered
     /\ (c.op = "read" /\ r.e = "EOF" => h.off >= Len(st.data))
@@ -219,9 +231,11 @@ ModelProps ==
     \* handles are independent: a call on one handle leaves every other handle alone
     /\ (c.op \notin {"remove", "rename", "replace"} => \A j \in HS \ {c.h} : r.st.hs[j] = st.hs[j])
     \* every call on a closed handle fails
-    /\ (c.op \notin {"open", "remove", "rename", "replace"} /\ h.s = "closed" => r.e \in {"FAIL", "ECLOSED", "ZERO"} /\ r.st = st)
+    /\ (c.op \notin {"open", "create", "remove", "rename", "replace"} /\ h.s = "closed" => r.e \in {"FAIL", "ECLOSED", "ZERO"} /\ r.st = st)
     \* handle I/O never changes which name is linked (no resurrection)
-    /\ (c.op \notin {"remove", "rename", "replace"} => r.st.link = st.link)
+    /\ (c.op \notin {"create", "remove", "rename", "replace"} => r.st.link = st.link)
+    \* a creating handle starts on an empty file
+    /\ (c.op = "create" => r.st.data = << >> /\ r.st.link = "f")
     \* offsets never negative; gaps are zero-filled
     /\ (\A j \in HS : r.st.hs[j].off >= 0)
     /\ (c.op \in {"write", "writeat", "truncate"} /\ r.e = "ok" /\ r.n + Len(c.bs) >= 0 =>
